@@ -4,7 +4,7 @@
    Consumers receive LABELS: each label stands for the serialised bytes of one
    published message (or TS blob); the byte-level meaning is [label_bytes] in
    GroupFanoutBytes.v.  No proofs here. *)
-From Lal Require Import Common.LBytes Rtmp.RtmpMetadata Group.GroupMsg Group.GroupGopCache.
+From Lal Require Import Common.LBytes Common.Res Rtmp.RtmpMetadata Net.NetRtpHeader Group.GroupMsg Group.GroupGopCache.
 Open Scope N_scope.
 
 Inductive label :=
@@ -13,16 +13,20 @@ Inductive label :=
 | LT (i : nat)      (* FLV tag of message i (metadata: @setDataFrame stripped) *)
 | LTs (j : nat)     (* j-th TS packet blob handed to OnTsPackets *)
 | LPat (k : nat)    (* k-th PAT/PMT blob handed to OnPatPmt *)
-| LSdp (k : nat).   (* k-th SDP handed to OnSdp *)
+| LSdp (k : nat)    (* k-th SDP handed to OnSdp (towards an RTSP subscriber: the DESCRIBE response carrying it) *)
+| LRtp (j : nat).   (* j-th RTP packet handed to OnRtpPacket *)
 
-Inductive ckind := KRtmp | KFlv | KPush | KTs.
+(* video payload type of an SDP as feedRtpPacket distinguishes it *)
+Inductive vcodec := VAvc | VHevc | VOther.
+
+Inductive ckind := KRtmp | KFlv | KPush | KTs | KRtsp.
 
 Definition ckind_eqb (a b : ckind) : bool :=
-  match a, b with KRtmp, KRtmp | KFlv, KFlv | KPush, KPush | KTs, KTs => true | _, _ => false end.
+  match a, b with KRtmp, KRtmp | KFlv, KFlv | KPush, KPush | KTs, KTs | KRtsp, KRtsp => true | _, _ => false end.
 
 Record consumer := mk_consumer {
   c_id : N; c_kind : ckind;
-  c_fresh : bool;        (* IsFresh *)
+  c_fresh : bool;        (* IsFresh; RTSP: Stage != SubSessionStageReadPlay *)
   c_wait : bool;         (* ShouldWaitVideoKeyFrame / ShouldWaitBoundary *)
   c_out : list label     (* everything written to the session so far *)
 }.
@@ -34,7 +38,10 @@ Record cfg := mk_cfg {
   cf_merge : N;            (* RtmpConfig.MergeWriteSize; 0 = no merge writer *)
   cf_record_flv : bool;
   cf_chunk : N;            (* rtmp.LocalChunkSize *)
-  cf_ext_at_limit : bool   (* extended timestamp also for ts = 0xFFFFFF (after fix F-01) *)
+  cf_ext_at_limit : bool;  (* extended timestamp also for ts = 0xFFFFFF (after fix F-01) *)
+  cf_rtsp_wait : bool;     (* RtspConfig.OutWaitKeyFrameFlag *)
+  cf_hook : bool;          (* a stream hook is installed (GroupOption.onHookSession) *)
+  cf_record_ts : bool      (* RecordConfig.EnableMpegts *)
 }.
 
 Record gstate := mk_gstate {
@@ -51,7 +58,11 @@ Record gstate := mk_gstate {
   g_gone : list consumer;                  (* detached consumers, kept for observation *)
   g_rec_open : bool;                       (* recordFlv != nil *)
   g_rec : list (list label);               (* FLV recordings, newest first *)
-  g_in : bool                              (* an input is attached *)
+  g_in : bool;                             (* an input is attached *)
+  g_next_rtp : nat;                        (* number of RTP packets handed to OnRtpPacket so far *)
+  g_vcodec : vcodec;                       (* sdpCtx.GetVideoPayloadTypeBase() of the SDP in force *)
+  g_hook : list (list nat * nat);          (* stream hook, one entry per input, newest first: messages told (OnMsg), OnStop calls *)
+  g_trec : list (list label)               (* MPEG-TS recordings, newest first *)
 }.
 
 Definition g_init (c : cfg) : gstate :=
@@ -60,7 +71,8 @@ Definition g_init (c : cfg) : gstate :=
      g_flv_cache := gc_new (cf_flv_gop c) (cf_flv_max c);
      g_ts_cache := gc_new (cf_ts_gop c) (cf_ts_max c);
      g_patpmt := None; g_sdp := None; g_next_sdp := 0; g_merge := []; g_merge_size := 0; g_video_known := false;
-     g_subs := []; g_gone := []; g_rec_open := false; g_rec := []; g_in := false |}.
+     g_subs := []; g_gone := []; g_rec_open := false; g_rec := []; g_in := false;
+     g_next_rtp := 0; g_vcodec := VOther; g_hook := []; g_trec := [] |}.
 
 Inductive ev :=
 | EvPublish (m : rmsg)
@@ -69,8 +81,13 @@ Inductive ev :=
 | EvInStart | EvInStop
 | EvTs (boundary : bool)      (* OnTsPackets(blob, frame, boundary) *)
 | EvPatPmt                    (* OnPatPmt(blob) *)
-| EvSdp                       (* OnSdp(ctx): an RTSP publisher / pull / the RTSP remuxer announces its SDP *)
-| EvDescribe (id : N).        (* HandleNewRtspSubSessionDescribe: answered with the current SDP, if any *)
+| EvSdp (v : vcodec)          (* OnSdp(ctx): an RTSP publisher / pull / the RTSP remuxer announces its SDP *)
+| EvPlay (id : N)             (* SETUP + PLAY of an RTSP subscriber that has its SDP: HandleNewRtspSubSessionPlay *)
+| EvRtp (raw : bytes)         (* OnRtpPacket(pkt), pkt = rtprtcp.ParseRtpPacket(raw) *)
+| EvDispose.                  (* Group.Dispose(): server shutdown / removal of the group.  The manager makes no further
+                                 calls on a disposed group; the model keeps stepping (with an empty subscriber set) *)
+(* EvJoin KRtsp id = DESCRIBE of a new RTSP session (HandleNewRtspSubSessionDescribe):
+   it joins rtspSubSessionSet and is answered with the current SDP, if any. *)
 
 Definition admitted (c : consumer) : bool := negb (c_fresh c) && negb (c_wait c).
 
@@ -166,10 +183,17 @@ Definition set_subs (s : gstate) subs merge msize : gstate :=
   {| g_next := g_next s; g_next_ts := g_next_ts s; g_next_pat := g_next_pat s;
      g_rtmp_cache := g_rtmp_cache s; g_flv_cache := g_flv_cache s; g_ts_cache := g_ts_cache s;
      g_patpmt := g_patpmt s; g_sdp := g_sdp s; g_next_sdp := g_next_sdp s; g_merge := merge; g_merge_size := msize; g_video_known := g_video_known s;
-     g_subs := subs; g_gone := g_gone s; g_rec_open := g_rec_open s; g_rec := g_rec s; g_in := g_in s |}.
+     g_subs := subs; g_gone := g_gone s; g_rec_open := g_rec_open s; g_rec := g_rec s; g_in := g_in s; g_next_rtp := g_next_rtp s; g_vcodec := g_vcodec s; g_hook := g_hook s; g_trec := g_trec s |}.
 
 Definition rec_append (r : list (list label)) (l : label) : list (list label) :=
   match r with [] => [[l]] | f :: t => (f ++ [l]) :: t end.
+
+(* the stream hook (customizeHookSessionContext): created at addIn, OnMsg for every
+   non-empty message, OnStop in delIn.  One entry per input, newest first. *)
+Definition hook_msg (hk : list (list nat * nat)) (i : nat) : list (list nat * nat) :=
+  match hk with [] => [] | (ms, st) :: t => (ms ++ [i], st) :: t end.
+Definition hook_stop (hk : list (list nat * nat)) : list (list nat * nat) :=
+  match hk with [] => [] | (ms, st) :: t => (ms, S st) :: t end.
 
 Definition publish (c : cfg) (s : gstate) (m : rmsg) : gstate :=
   let i := g_next s in
@@ -178,7 +202,7 @@ Definition publish (c : cfg) (s : gstate) (m : rmsg) : gstate :=
        g_rtmp_cache := g_rtmp_cache s'; g_flv_cache := g_flv_cache s'; g_ts_cache := g_ts_cache s';
        g_patpmt := g_patpmt s'; g_sdp := g_sdp s'; g_next_sdp := g_next_sdp s'; g_merge := g_merge s'; g_merge_size := g_merge_size s';
        g_video_known := g_video_known s'; g_subs := g_subs s'; g_gone := g_gone s';
-       g_rec_open := g_rec_open s'; g_rec := g_rec s'; g_in := g_in s' |} in
+       g_rec_open := g_rec_open s'; g_rec := g_rec s'; g_in := g_in s'; g_next_rtp := g_next_rtp s'; g_vcodec := g_vcodec s'; g_hook := g_hook s'; g_trec := g_trec s' |} in
   if Nat.eqb (length (rm_payload m)) 0 then bump s
   else
     let key := is_video_key_nalu m in
@@ -213,7 +237,8 @@ Definition publish (c : cfg) (s : gstate) (m : rmsg) : gstate :=
     {| g_next := S i; g_next_ts := g_next_ts s; g_next_pat := g_next_pat s;
        g_rtmp_cache := rc; g_flv_cache := fc; g_ts_cache := g_ts_cache s;
        g_patpmt := g_patpmt s; g_sdp := g_sdp s; g_next_sdp := g_next_sdp s; g_merge := merge2; g_merge_size := msize2; g_video_known := vk;
-       g_subs := subs4; g_gone := g_gone s; g_rec_open := g_rec_open s; g_rec := rec'; g_in := g_in s |}.
+       g_subs := subs4; g_gone := g_gone s; g_rec_open := g_rec_open s; g_rec := rec'; g_in := g_in s; g_next_rtp := g_next_rtp s; g_vcodec := g_vcodec s;
+       g_hook := if g_in s && cf_hook c then hook_msg (g_hook s) i else g_hook s; g_trec := g_trec s |}.
 
 Definition ts_step (cache : gop_cache label) (pat : option label) (boundary : bool) (lt : label) (c : consumer) : consumer :=
   if negb (ckind_eqb (c_kind c) KTs) then c
@@ -234,7 +259,61 @@ Definition feed_ts (c : cfg) (s : gstate) (boundary : bool) : gstate :=
      g_rtmp_cache := g_rtmp_cache s; g_flv_cache := g_flv_cache s; g_ts_cache := tc;
      g_patpmt := g_patpmt s; g_sdp := g_sdp s; g_next_sdp := g_next_sdp s; g_merge := g_merge s; g_merge_size := g_merge_size s;
      g_video_known := g_video_known s; g_subs := subs'; g_gone := g_gone s;
-     g_rec_open := g_rec_open s; g_rec := g_rec s; g_in := g_in s |}.
+     g_rec_open := g_rec_open s; g_rec := g_rec s; g_in := g_in s; g_next_rtp := g_next_rtp s; g_vcodec := g_vcodec s; g_hook := g_hook s; 
+     (* recordMpegts.Write(tsPackets) *)
+     g_trec := if g_in s && cf_record_ts c then rec_append (g_trec s) (LTs j) else g_trec s |}.
+
+(* ---- RTSP subscribers (feedRtpPacket, after the fixes of E1) ---- *)
+Definition rtp_pt (raw : bytes) : option N :=
+  match parse_rtp_header true raw with Ok h => Some (rh_pt h) | _ => None end.
+
+(* the switch on sdpCtx.GetVideoPayloadTypeBase(): IsAvcBoundary / IsHevcBoundary (models of C13), true otherwise *)
+Definition rtp_is_boundary (v : vcodec) (raw : bytes) : bool :=
+  match v with
+  | VOther => true
+  | VAvc => match rtp_boundary true false raw with Ok b => b | _ => false end
+  | VHevc => match rtp_boundary true true raw with Ok b => b | _ => false end
+  end.
+
+(* payload types every SDP of the harness announces (video 96, audio 97):
+   BaseOutSession.WriteRtpPacket hands other packets to no connection *)
+Definition rtp_pt_written (pt : N) : bool := (pt =? 96) || (pt =? 97).
+
+Definition no_sdp_yet (c : consumer) : bool := match c_out c with [] => true | _ => false end.
+
+Definition rtsp_step (waitcfg boundary written : bool) (l : label) (c : consumer) : consumer :=
+  if negb (ckind_eqb (c_kind c) KRtsp) then c
+  else if c_fresh c then c                     (* not in stage ReadPlay: skipped *)
+  else
+    let w := if written then c_append c [l] else c in
+    if negb waitcfg || negb (c_wait c) then w
+    else if boundary then c_set w false false else c.
+
+Definition feed_rtp (c : cfg) (s : gstate) (raw : bytes) : gstate :=
+  let j := g_next_rtp s in
+  let subs' :=
+    match rtp_pt raw with
+    | None => g_subs s     (* ParseRtpPacket fails: never reaches the group *)
+    | Some pt =>
+        (* no SDP in force (the input ended): nothing reaches a waiting session *)
+        let boundary := match g_sdp s with None => false | Some _ => rtp_is_boundary (g_vcodec s) raw end in
+        map (rtsp_step (cf_rtsp_wait c) boundary (rtp_pt_written pt) (LRtp j)) (g_subs s)
+    end in
+  {| g_next := g_next s; g_next_ts := g_next_ts s; g_next_pat := g_next_pat s;
+     g_rtmp_cache := g_rtmp_cache s; g_flv_cache := g_flv_cache s; g_ts_cache := g_ts_cache s;
+     g_patpmt := g_patpmt s; g_sdp := g_sdp s; g_next_sdp := g_next_sdp s; g_merge := g_merge s; g_merge_size := g_merge_size s;
+     g_video_known := g_video_known s; g_subs := subs'; g_gone := g_gone s;
+     g_rec_open := g_rec_open s; g_rec := g_rec s; g_in := g_in s;
+     g_next_rtp := S j; g_vcodec := g_vcodec s; g_hook := g_hook s; g_trec := g_trec s |}.
+
+(* feedWaitRtspSubSessions: sessions still in stage ReadDescribe get the SDP *)
+Definition sdp_step (l : label) (c : consumer) : consumer :=
+  if ckind_eqb (c_kind c) KRtsp && c_fresh c && no_sdp_yet c then c_append c [l] else c.
+
+(* handlePlay + HandleNewRtspSubSessionPlay *)
+Definition play_step (video_known : bool) (id : N) (c : consumer) : consumer :=
+  if (c_id c =? id) && ckind_eqb (c_kind c) KRtsp && c_fresh c && negb (no_sdp_yet c)
+  then c_set c false (if video_known then c_wait c else false) else c.
 
 Definition new_consumer (s : gstate) (k : ckind) (id : N) : consumer :=
   (* NewServerSession / NewSubSession: IsFresh = true, ShouldWait... = true;
@@ -244,8 +323,10 @@ Definition new_consumer (s : gstate) (k : ckind) (id : N) : consumer :=
               | KRtmp | KFlv => g_video_known s
               | KPush => false
               | KTs => true
+              | KRtsp => true      (* NewSubSession; decided at PLAY *)
               end in
-  {| c_id := id; c_kind := k; c_fresh := true; c_wait := wait; c_out := [] |}.
+  {| c_id := id; c_kind := k; c_fresh := true; c_wait := wait;
+     c_out := match k with KRtsp => opt_list (g_sdp s) | _ => [] end |}.
 
 Definition step (c : cfg) (s : gstate) (e : ev) : gstate :=
   match e with
@@ -259,7 +340,7 @@ Definition step (c : cfg) (s : gstate) (e : ev) : gstate :=
          g_rtmp_cache := g_rtmp_cache s; g_flv_cache := g_flv_cache s; g_ts_cache := g_ts_cache s;
          g_patpmt := g_patpmt s; g_sdp := g_sdp s; g_next_sdp := g_next_sdp s; g_merge := g_merge s; g_merge_size := g_merge_size s;
          g_video_known := g_video_known s; g_subs := stay; g_gone := g_gone s ++ gone;
-         g_rec_open := g_rec_open s; g_rec := g_rec s; g_in := g_in s |}
+         g_rec_open := g_rec_open s; g_rec := g_rec s; g_in := g_in s; g_next_rtp := g_next_rtp s; g_vcodec := g_vcodec s; g_hook := g_hook s; g_trec := g_trec s |}
   | EvInStart =>
       if g_in s then s else
       {| g_next := g_next s; g_next_ts := g_next_ts s; g_next_pat := g_next_pat s;
@@ -267,7 +348,9 @@ Definition step (c : cfg) (s : gstate) (e : ev) : gstate :=
          g_patpmt := g_patpmt s; g_sdp := g_sdp s; g_next_sdp := g_next_sdp s; g_merge := g_merge s; g_merge_size := g_merge_size s;
          g_video_known := g_video_known s; g_subs := g_subs s; g_gone := g_gone s;
          g_rec_open := cf_record_flv c;
-         g_rec := if cf_record_flv c then [] :: g_rec s else g_rec s; g_in := true |}
+         g_rec := if cf_record_flv c then [] :: g_rec s else g_rec s; g_in := true; g_next_rtp := g_next_rtp s; g_vcodec := g_vcodec s;
+         g_hook := if cf_hook c then ([], 0%nat) :: g_hook s else g_hook s;
+         g_trec := if cf_record_ts c then [] :: g_trec s else g_trec s |}
   | EvInStop =>
       if negb (g_in s) then s else
       (* delIn: push sessions disposed and forgotten, recording closed, caches
@@ -278,7 +361,8 @@ Definition step (c : cfg) (s : gstate) (e : ev) : gstate :=
          g_ts_cache := gc_clear (g_ts_cache s);
          g_patpmt := None; g_sdp := None; g_next_sdp := g_next_sdp s; g_merge := g_merge s; g_merge_size := g_merge_size s;
          g_video_known := false; g_subs := stay; g_gone := g_gone s ++ pushes;
-         g_rec_open := false; g_rec := g_rec s; g_in := false |}
+         g_rec_open := false; g_rec := g_rec s; g_in := false; g_next_rtp := g_next_rtp s; g_vcodec := VOther;
+         g_hook := if cf_hook c then hook_stop (g_hook s) else g_hook s; g_trec := g_trec s |}
   | EvTs boundary => feed_ts c s boundary
   | EvPatPmt =>
       let k := g_next_pat s in
@@ -289,22 +373,27 @@ Definition step (c : cfg) (s : gstate) (e : ev) : gstate :=
          (* sessions past their prologue get the new tables at once (fix F-08iii) *)
          g_subs := map (fun c => if ckind_eqb (c_kind c) KTs && negb (c_fresh c) then c_append c [LPat k] else c) (g_subs s);
          g_gone := g_gone s;
-         g_rec_open := g_rec_open s; g_rec := g_rec s; g_in := g_in s |}
-  | EvSdp =>
+         g_rec_open := g_rec_open s; g_rec := g_rec s; g_in := g_in s; g_next_rtp := g_next_rtp s; g_vcodec := g_vcodec s; g_hook := g_hook s; 
+         g_trec := if g_in s && cf_record_ts c then rec_append (g_trec s) (LPat k) else g_trec s |}
+  | EvSdp v =>
       let k := g_next_sdp s in
       {| g_next := g_next s; g_next_ts := g_next_ts s; g_next_pat := g_next_pat s;
          g_rtmp_cache := g_rtmp_cache s; g_flv_cache := g_flv_cache s; g_ts_cache := g_ts_cache s;
          g_patpmt := g_patpmt s; g_sdp := Some (LSdp k); g_next_sdp := S k; g_merge := g_merge s; g_merge_size := g_merge_size s;
-         g_video_known := g_video_known s; g_subs := g_subs s; g_gone := g_gone s;
-         g_rec_open := g_rec_open s; g_rec := g_rec s; g_in := g_in s |}
-  | EvDescribe id =>
-      (* the answer is recorded as a detached pseudo-consumer (kind KTs, never attached) *)
+         g_video_known := g_video_known s; g_subs := map (sdp_step (LSdp k)) (g_subs s); g_gone := g_gone s;
+         g_rec_open := g_rec_open s; g_rec := g_rec s; g_in := g_in s;
+         g_next_rtp := g_next_rtp s; g_vcodec := v; g_hook := g_hook s; g_trec := g_trec s |}
+  | EvPlay id => set_subs s (map (play_step (g_video_known s) id) (g_subs s)) (g_merge s) (g_merge_size s)
+  | EvRtp raw => feed_rtp c s raw
+  | EvDispose =>
+      (* every sub session is disposed and forgotten, then delIn runs - without any check that an input exists *)
       {| g_next := g_next s; g_next_ts := g_next_ts s; g_next_pat := g_next_pat s;
-         g_rtmp_cache := g_rtmp_cache s; g_flv_cache := g_flv_cache s; g_ts_cache := g_ts_cache s;
-         g_patpmt := g_patpmt s; g_sdp := g_sdp s; g_next_sdp := g_next_sdp s; g_merge := g_merge s; g_merge_size := g_merge_size s;
-         g_video_known := g_video_known s; g_subs := g_subs s;
-         g_gone := g_gone s ++ [{| c_id := id; c_kind := KTs; c_fresh := false; c_wait := false; c_out := opt_list (g_sdp s) |}];
-         g_rec_open := g_rec_open s; g_rec := g_rec s; g_in := g_in s |}
+         g_rtmp_cache := gc_clear (g_rtmp_cache s); g_flv_cache := gc_clear (g_flv_cache s);
+         g_ts_cache := gc_clear (g_ts_cache s);
+         g_patpmt := None; g_sdp := None; g_next_sdp := g_next_sdp s; g_merge := g_merge s; g_merge_size := g_merge_size s;
+         g_video_known := false; g_subs := []; g_gone := g_gone s ++ g_subs s;
+         g_rec_open := false; g_rec := g_rec s; g_in := false; g_next_rtp := g_next_rtp s; g_vcodec := VOther;
+         g_hook := if g_in s && cf_hook c then hook_stop (g_hook s) else g_hook s; g_trec := g_trec s |}
   end.
 
 Definition run (c : cfg) (h : list ev) : gstate := fold_left (step c) h (g_init c).
